@@ -199,7 +199,7 @@ func RunAll(pkgs []*Pkg, variants []Variant, each func(fr fileResult)) {
 					r.Refresh()
 				}
 				for _, f := range p.Files {
-					if p.Focus != "" && f.Name != p.Focus {
+					if p.Focus != "" && f.Name != p.Focus && !p.FocusAlso[f.Name] {
 						continue
 					}
 					fr := fileResult{pkg: p, file: f, outcomes: make([]Outcome, len(variants))}
@@ -286,6 +286,7 @@ func compute(tier string, seed int64, dir string) *Shared {
 	for _, p := range all {
 		s.Packages[p.Stream]++
 		if p.Focus != "" {
+			s.Files += len(p.FocusAlso)
 			s.Files++
 		} else {
 			s.Files += len(p.Files)
